@@ -404,6 +404,11 @@ def cmp(op, a, b):
     lo, hi = rng(d)
     if op == 'eq':
         if lo > 0 or hi < 0: return FALSE
+        # a truth value compared with a constant (`match (p, q) { (false, true) => .. }`): the condition itself
+        for u, v in ((a, b), (b, a)):
+            if u[0] == 'c' and v[0] in ('isvar', 'eq', 'lt', 'le', 'bnot', 'band', 'bor'):
+                if u[1] == 1: return v
+                if u[1] == 0: return bnot(v)
         x, y = sorted((a, b), key=key)
         return ('eq', x, y)
     if op == 'lt':
@@ -544,7 +549,7 @@ def equal(a, b, facts=(), max_split=10, _depth=0):
     for par in itertools.product((0, 1), repeat=len(pa)):
         m = {x: add(scale(('a', ('half', key(x))), 2), C(p)) for x, p in zip(pa, par)}
         a1, b1 = (subst(a, m), subst(b, m)) if m else (a, b)
-        conds = sorted(cond_atoms(a1) | cond_atoms(b1), key=key)
+        conds = sorted(cond_atoms(a1) | cond_atoms(b1) | _bit_leaves(a1) | _bit_leaves(b1), key=key)
         # a condition that itself contains a conditional value (`(ite(p, x | 2, x) & 2) == 0`) is not independent of the
         # inner condition: split on the innermost ones first, the outer ones fold or are split in the recursive call
         inner = [c for c in conds if not any(u[0] == 'ite' for u in subterms(c))]
@@ -596,6 +601,15 @@ def equal(a, b, facts=(), max_split=10, _depth=0):
                                'conds': {show(c): v for c, v in zip(conds, asg)},
                                'lhs': show(a2), 'rhs': show(b2)}
     return True, None
+
+def _bit_leaves(t):
+    """leaves with values 0/1 that sit under a bit operation (`flags | 2*hotpluggable`): decided by cases like conditions"""
+    out = set()
+    for u in subterms(t):
+        if u[0] in ('or', 'and', 'xor'):
+            for v in subterms(u):
+                if v[0] in ('a', 'sel') and rng(v) == (0, 1): out.add(v)
+    return out if len(out) <= 6 else set()
 
 ENUM_VARIANTS = {}      # scrutinee term -> number of variants of its enum (filled in by the interpreter)
 
